@@ -2437,6 +2437,12 @@ val lookup1 : string -> (string * schema) list -> schema option
 
 val prim_schema : ty -> schema option
 
+val ns_eqb : n list -> n list -> bool
+
+val sx_eqb : sx -> sx -> bool
+
+val decodes_back : ty -> value -> ctree -> bool
+
 val same_as_schema : schema -> value -> ctree -> bool
 
 val run_spec : sx -> sx
